@@ -1,6 +1,8 @@
 """C20 on the real code: each class of ill-posed input, embedded in an otherwise valid random problem, must raise the
 listed exception no later than the first request that needs the ill-defined quantity; well-posed inputs must answer
 with finite values."""
+import os, sys; sys.path.insert(0, os.path.dirname(os.path.abspath(__file__)))
+from common import case_rnd, skip
 import sys, json, random, warnings
 import numpy as np, sympy
 from scipy import sparse
@@ -78,6 +80,8 @@ def run(cls, rnd):
 def main(seed, ncases, driver, out):
     rnd = random.Random(seed); failures = []; dist = {}; samples = []; evals = 0
     for c in range(ncases):
+        if skip(c): continue
+        rnd = case_rnd(seed, c)
         cls = CLASSES[c % len(CLASSES)]; r = run(cls, rnd)
         if r is None: continue
         evals += 1; dist[cls] = dist.get(cls, 0) + 1
